@@ -153,4 +153,18 @@ theorem matchAttr_none_of_no_quote (cls : Classes) (a : List Char) (h : '"' ∉ 
         exact h this
       · simp at hm
 
+/-- two range tables have no code point in common -/
+def rangesDisjoint (a b : List (Nat × Nat)) : Bool :=
+  a.all fun x => b.all fun y => decide (x.2 < y.1) || decide (y.2 < x.1)
+
+theorem inRanges_disjoint (a b : List (Nat × Nat)) (h : rangesDisjoint a b = true) (c : Char) :
+    ¬ (inRanges a c = true ∧ inRanges b c = true) := by
+  rintro ⟨ha, hb⟩
+  simp only [inRanges, List.any_eq_true, Bool.and_eq_true, decide_eq_true_eq] at ha hb
+  obtain ⟨x, hx, hx1, hx2⟩ := ha
+  obtain ⟨y, hy, hy1, hy2⟩ := hb
+  simp only [rangesDisjoint, List.all_eq_true, Bool.or_eq_true, decide_eq_true_eq] at h
+  have := h x hx y hy
+  omega
+
 end Kskm.Xml
